@@ -64,6 +64,7 @@ theorem wfl_stepLayer (l : Layer) (h : WFL l) (op : Op) : WFL (stepLayer l op).1
     cases htm : l.toml with
     | none => simpa using h
     | some tm => cases tm <;> simpa [WFL] using h
+  | wmetaBad n => exact h
   | wenv n ins =>
     simp only [stepLayer, writeEnv]
     split
@@ -100,6 +101,7 @@ theorem writeOk_stepLayer (l : Layer) (op : Op) (hreq : isRequest op = false) :
     cases htm : l.toml with
     | none => simp [writeOk]
     | some tm => cases tm <;> simp [writeOk, htm, optBeq_refl]
+  | wmetaBad n => simp [stepLayer, writeOk, layerEq_refl]
   | wsbom n sb =>
     simp only [stepLayer, replaceSboms]
     cases hd : l.dir <;> simp [writeOk, hd, optBeq_refl]
@@ -173,6 +175,7 @@ theorem step_ok (names : List Bytes) (s : St) (op : Op) (hwf : WFS s.store) :
     · simp only [step, Op.name, isWrite, Bool.false_and, Bool.false_eq_true, if_false]
       exact wfs_set hwf _ _ (wfl_stepLayer _ (hwf n) _)
   | wmeta n m => exact step_write names s _ n rfl rfl hwf
+  | wmetaBad n => exact step_write names s _ n rfl rfl hwf
   | wenv n ins => exact step_write names s _ n rfl rfl hwf
   | wsbom n sb => exact step_write names s _ n rfl rfl hwf
   | wexecd n ps => exact step_write names s _ n rfl rfl hwf
